@@ -170,7 +170,7 @@ def run_case(case):
     else:
         legal = call_f.moves
     nchanges = 0
-    ties_possible = sim in ('fast_nonMarkov_SIR', 'fast_nonMarkov_SIS') and case['rule']['kind'] == 'const'
+    ties_possible = sim in ('fast_nonMarkov_SIR', 'fast_nonMarkov_SIS') and case['rule']['kind'] in ('const', 'lattice')
     for u in nodes:
         ts, ss = hist[u]
         bump(res, 'histories_checked')
